@@ -180,6 +180,10 @@ def binary_variants(tier):
     for adj in ((8, 0), (16, 8), (4, 0), (2, 1), (1, 0), None):
         d = Dyn("LENH", True, adj[0] if adj else None, adj[1] if adj else None)
         out.append((f"bin:dyn:LENH:cal:{adj}", BinEnc(d), ("dyn", "LENH", True, adj, 0)))
+    # lengths that are almost whole numbers (rounding noise of a calibration): not a whole number of bits, so not a length
+    lka = Lookup((((Cmp("SEL", "==", "0"),), 23.9999999999), ((Cmp("SEL", "==", "1"),), 24.0000000001), ((Cmp("SEL", "==", "2"),), 119.99999999999999),
+                  ((Cmp("SEL", ">=", "3"),), 24.0)))
+    out.append(("bin:lookup-almost-whole-numbers", BinEnc(lka), ("lookup", (-1, -1, -1, 24))))
     # the field is the LAST thing in the packet (no sentinel after it): a length of 0 then ends flush with the packet
     out.append(("bin:dyn:LEN:raw:(8, 0):last", BinEnc(Dyn("LEN", False, 8, 0)), ("dyn", "LEN", False, (8, 0), 0)))
     out.append(("bin:lookup-zero-then-catch-all:last", BinEnc(lkz), ("lookup", (12, 0, 12, 12))))
@@ -247,6 +251,9 @@ def packets_for(label, enc, kind, cs, bo, offset, max_units, is_string):
     elif kind[0] == "lookup":
         for sel in (0, 1, 2, 3, 1, 3, 0):
             L = length_from(kind, 0, sel)
+            if L < 0:
+                yield sel, 5, "01" * 80   # no sensible length: plenty of data follows, so that nothing fails merely for lack of it
+                continue
             conts = list(field_contents(enc, cs, bo, L, min(max_units, 2), is_string))
             for fb in conts[:: max(1, len(conts) // 40)]:
                 yield sel, 5, fb
